@@ -14,6 +14,7 @@ import (
 	"io"
 	"log"
 	"os"
+	"regexp"
 	"strings"
 	"time"
 
@@ -134,6 +135,126 @@ type Input struct {
 	Carry bool       `json:"carry,omitempty"` // the chain is on the handle before DryRun / ToSQL is switched on
 	C01  *cgen.Input `json:"c01,omitempty"`
 	X    *XOp        `json:"x,omitempty"`
+	Script *Script   `json:"script,omitempty"`
+}
+
+// Script: what a closure does with its handle: operations on Doc, nested Transaction blocks, explicit savepoints.
+type Step struct {
+	K       string `json:"k"` // op | block | save | rollto
+	Op      string `json:"op,omitempty"` // create update delete find exec
+	ID      int64  `json:"id,omitempty"`
+	Title   string `json:"title,omitempty"`
+	Fail    bool   `json:"fail,omitempty"`    // block: the closure returns an error at its end
+	Swallow bool   `json:"swallow,omitempty"` // block: the enclosing closure ignores the block's error
+	Name    string `json:"name,omitempty"`    // save / rollto
+	Body    []Step `json:"body,omitempty"`
+}
+type Script struct {
+	Encl  bool   `json:"encl"` // the script runs between Begin() and Rollback() of the caller
+	Steps []Step `json:"steps"`
+}
+
+// Shown: the statement one operation of a script exposed.
+type Shown struct {
+	Idx  int       `json:"idx"` // which operation of the script (numbered in source order)
+	Kind string    `json:"kind"`
+	SQL  string    `json:"sql"`
+	Vars []cgen.Sc `json:"vars"`
+	Err  bool      `json:"err,omitempty"`
+}
+
+var scriptShown []Shown
+
+var errForced = errors.New("forced failure of the block")
+
+func scriptOp(tx *gorm.DB, st Step) *gorm.DB {
+	switch st.Op {
+	case "create":
+		return tx.Create(&Doc{Title: st.Title})
+	case "update":
+		return tx.Model(&Doc{}).Where("id = ?", st.ID).Update("title", st.Title)
+	case "delete":
+		return tx.Delete(&Doc{}, st.ID)
+	case "find":
+		var d []Doc
+		return tx.Where("title <> ?", st.Title).Find(&d)
+	case "exec":
+		return tx.Exec("UPDATE docs SET title = ? WHERE id = ?", st.Title, st.ID)
+	}
+	panic("script op " + st.Op)
+}
+
+var opKind = map[string]string{"create": "OpCreate", "update": "OpUpdate", "delete": "OpDelete", "find": "OpQuery", "exec": "OpRaw"}
+
+// opsIn: the number of operations a list of steps contains (source order numbering)
+func opsIn(steps []Step) int {
+	n := 0
+	for _, st := range steps {
+		if st.K == "op" {
+			n++
+		}
+		n += opsIn(st.Body)
+	}
+	return n
+}
+
+func runSteps(tx *gorm.DB, steps []Step, base int) error {
+	idx := base
+	for _, st := range steps {
+		myIdx := idx
+		if st.K == "op" {
+			idx++
+		}
+		idx += opsIn(st.Body)
+		switch st.K {
+		case "op":
+			r := scriptOp(tx, st)
+			err := r.Error
+			if errors.Is(err, gorm.ErrRecordNotFound) {
+				err = nil
+			}
+			scriptShown = append(scriptShown, Shown{Idx: myIdx, Kind: opKind[st.Op], SQL: r.Statement.SQL.String(), Vars: cgen.CanonAll(r.Statement.Vars), Err: err != nil})
+			if err != nil {
+				return err
+			}
+		case "save":
+			tx.SavePoint(st.Name)
+		case "rollto":
+			tx.RollbackTo(st.Name)
+		case "block":
+			body, fail := st.Body, st.Fail
+			err := tx.Transaction(func(tx2 *gorm.DB) error {
+				if err := runSteps(tx2, body, myIdx); err != nil {
+					return err
+				}
+				if fail {
+					return errForced
+				}
+				return nil
+			})
+			if err != nil && !st.Swallow {
+				return err
+			}
+		}
+	}
+	return nil
+}
+
+func runScript(db *gorm.DB, sc Script) *gorm.DB {
+	h := db
+	if sc.Encl {
+		h = db.Begin()
+		if h.Error != nil {
+			return h
+		}
+	}
+	err := runSteps(h, sc.Steps, 0)
+	if sc.Encl {
+		h.Rollback()
+	}
+	res := db.Session(&gorm.Session{NewDB: true})
+	res.Error = err
+	return res
 }
 
 type Ev struct {
@@ -144,6 +265,7 @@ type Ev struct {
 }
 
 type Run struct {
+	Shown []Shown  `json:"shown,omitempty"` // scripts: the statement every operation exposed
 	Log  []Ev      `json:"log"`
 	SQL  string    `json:"sql"`
 	Vars []cgen.Sc `json:"vars"`
@@ -341,6 +463,9 @@ func carries(in Input) bool {
 }
 
 func opBase(db *gorm.DB, in Input) *gorm.DB {
+	if in.Script != nil {
+		return db
+	}
 	if in.X != nil {
 		return xBase(db, *in.X)
 	}
@@ -351,6 +476,9 @@ func opBase(db *gorm.DB, in Input) *gorm.DB {
 }
 
 func opFin(db *gorm.DB, in Input) *gorm.DB {
+	if in.Script != nil {
+		return runScript(db, *in.Script)
+	}
 	if in.X != nil {
 		return xFin(db, *in.X)
 	}
@@ -404,9 +532,18 @@ func (e env) reseed() {
 	e.rec.Reset()
 }
 
+var spRe = regexp.MustCompile(`^(SAVEPOINT|ROLLBACK TO SAVEPOINT) (sp\d+)$`)
+
 func (e env) events(dry bool) []Ev {
 	var out []Ev
+	spNames := map[string]string{} // the savepoint names gorm invents, numbered in order of appearance
 	for _, ev := range e.rec.Snapshot() {
+		if m := spRe.FindStringSubmatch(ev.Query); m != nil {
+			if _, ok := spNames[m[2]]; !ok {
+				spNames[m[2]] = fmt.Sprintf("sp%d", len(spNames)+1)
+			}
+			ev.Query = m[1] + " " + spNames[m[2]]
+		}
 		if ev.Kind == "prepare" && !dry {
 			continue // PrepareStmt mode: the real run prepares, then executes the prepared statement
 		}
@@ -434,6 +571,7 @@ func capture(e env, dry, failBegin bool, f func() *gorm.DB) (r Run) {
 			return nil
 		}
 	}
+	scriptShown = nil
 	defer func() {
 		e.rec.Fault = nil
 		if p := recover(); p != nil {
@@ -442,6 +580,7 @@ func capture(e env, dry, failBegin bool, f func() *gorm.DB) (r Run) {
 		}
 	}()
 	tx := f()
+	r.Shown = scriptShown
 	r.Log = e.events(dry)
 	r.SQL = tx.Statement.SQL.String()
 	r.Vars = cgen.CanonAll(tx.Statement.Vars)
@@ -511,8 +650,43 @@ func loggerOf(kind string) logger.Interface {
 }
 
 // ---- classification of the operation (input of the pipeline model) ----
+func gSteps(steps []Step, shown []Shown, noRet bool, base int) string {
+	out := make([]string, 0, len(steps))
+	idx := base
+	for _, st := range steps {
+		myIdx := idx
+		if st.K == "op" {
+			idx++
+		}
+		idx += opsIn(st.Body)
+		switch st.K {
+		case "op":
+			// the statement this operation exposed in the dry run (nothing for an operation the dry run never reached)
+			sh := Shown{Kind: opKind[st.Op]}
+			for _, x := range shown {
+				if x.Idx == myIdx {
+					sh = x
+				}
+			}
+			ret := st.Op == "create" && !noRet
+			out = append(out, lib.App("TOp", sh.Kind, lib.App("mk_built", lib.Str(sh.SQL),
+				lib.ListOf(sh.Vars, func(s cgen.Sc) string { return s.Coq() }), lib.Bool(sh.Err), lib.Bool(ret), "false")))
+		case "save":
+			out = append(out, lib.App("TSave", lib.Str(st.Name)))
+		case "rollto":
+			out = append(out, lib.App("TRollTo", lib.Str(st.Name)))
+		case "block":
+			out = append(out, lib.App("TBlock", lib.Bool(st.Fail), lib.Bool(st.Swallow), gSteps(st.Body, shown, noRet, myIdx)))
+		}
+	}
+	return lib.List(out)
+}
+
 func classify(in Input) (kind, fin string, ret bool) {
 	fin = "FPlain"
+	if in.Script != nil {
+		return "OpRaw", "FScript", false // the term of the script is made in term()
+	}
 	if in.X != nil {
 		switch in.X.K {
 		case "create", "save_new":
@@ -622,6 +796,14 @@ func term(in Input, o Observed) string {
 	if in.NoRet {
 		ret = false
 	}
+	if in.Script != nil {
+		fin = "(" + lib.App("FScript", lib.Bool(in.Script.Encl), gSteps(in.Script.Steps, o.Dry.Shown, in.NoRet, 0)) + ")"
+	}
+	gShown := func(l []Shown) string {
+		return lib.ListOf(l, func(x Shown) string {
+			return lib.Pair(lib.Str(x.SQL), lib.ListOf(x.Vars, func(s cgen.Sc) string { return s.Coq() }))
+		})
+	}
 	dorc := make([]string, len(o.Dry.Log))
 	for i, e := range o.Dry.Log {
 		dorc[i] = lib.App("mk_dres", lib.Bool(e.Err), lib.Z(1))
@@ -632,7 +814,7 @@ func term(in Input, o Observed) string {
 	// an error gorm raised while processing the answer of a statement (scanning rows) counts as the
 	// answer to that statement: attribute it to the last statement of the log
 	postErr := -1
-	if o.Real.Err != "" {
+	if o.Real.Err != "" && in.Script == nil { // (the error of a script is the error its closure returned)
 		drvErr := false
 		for i, e := range o.Real.Log {
 			if e.Err {
@@ -659,7 +841,7 @@ func term(in Input, o Observed) string {
 	return lib.App("mk_case", kind, fin, mode, lib.Bool(in.Skip), lib.Bool(ret), lib.List(orc), lib.List(dorc),
 		lib.ListOf(o.Dry.Log, gEv), lib.Str(o.Dry.SQL), lib.ListOf(o.Dry.Vars, func(s cgen.Sc) string { return s.Coq() }), lib.Bool(o.Dry.Err != ""),
 		lib.Str(o.ToSQL), lib.Str(o.Explained),
-		lib.ListOf(o.Real.Log, gEv), lib.Bool(o.Real.Err != ""))
+		lib.ListOf(o.Real.Log, gEv), lib.Bool(o.Real.Err != ""), gShown(o.Dry.Shown))
 }
 
 func shape(in Input) string {
@@ -667,7 +849,77 @@ func shape(in Input) string {
 	if in.X != nil {
 		return s + "x:" + in.X.K
 	}
+	if in.Script != nil {
+		var sb strings.Builder
+		var w func(l []Step)
+		w = func(l []Step) {
+			for _, st := range l {
+				sb.WriteString(st.K + st.Op + fmt.Sprint(st.Fail, st.Swallow))
+				if st.K == "block" {
+					sb.WriteByte('{')
+					w(st.Body)
+					sb.WriteByte('}')
+				}
+				sb.WriteByte(';')
+			}
+		}
+		w(in.Script.Steps)
+		return s + fmt.Sprint("script:", in.Script.Encl, ":") + sb.String()
+	}
 	return s + cgen.Shape(*in.C01)
+}
+
+func depthOf(l []Step) int {
+	d := 0
+	for _, st := range l {
+		if st.K == "block" {
+			if x := 1 + depthOf(st.Body); x > d {
+				d = x
+			}
+		}
+	}
+	return d
+}
+
+// genScript: a top-level Transaction block (or a handle between Begin and Rollback) with operations,
+// nested blocks (failing or not, error swallowed or not) and explicit savepoints inside.
+func genScript(r *lib.Rng) Script {
+	title := func() string { return fmt.Sprintf("s'%d\"?;--", r.Intn(1000)) }
+	op := func() Step {
+		return Step{K: "op", Op: lib.Pick(r, []string{"create", "update", "delete", "find", "exec"}), ID: int64(r.Range(1, 2)), Title: title()}
+	}
+	var body func(depth int) []Step
+	body = func(depth int) []Step {
+		var out []Step
+		saved := ""
+		for i := r.Range(1, 3); i > 0; i-- {
+			switch {
+			case depth > 0 && r.Chance(1, 3):
+				out = append(out, Step{K: "block", Fail: r.Chance(1, 3), Swallow: r.Bool(), Body: body(depth - 1)})
+			case r.Chance(1, 5):
+				saved = lib.Pick(r, []string{"c19a", "c19b"})
+				out = append(out, Step{K: "save", Name: saved}, op())
+			case saved != "" && r.Chance(1, 2):
+				out = append(out, Step{K: "rollto", Name: saved})
+			default:
+				out = append(out, op())
+			}
+		}
+		return out
+	}
+	sc := Script{Encl: r.Chance(1, 3)}
+	if sc.Encl {
+		sc.Steps = body(2) // the handle is inside a transaction already: every block is a nested one
+		if depthOf(sc.Steps) == 0 {
+			sc.Steps = append(sc.Steps, Step{K: "block", Fail: r.Chance(1, 3), Swallow: true, Body: body(1)})
+		}
+	} else {
+		sc.Steps = []Step{{K: "block", Fail: r.Chance(1, 4), Swallow: r.Bool(), Body: body(2)}}
+		if r.Chance(1, 3) {
+			sc.Steps = append(sc.Steps, op())
+		}
+	}
+	return sc
 }
 
 func main() {
@@ -708,7 +960,9 @@ func main() {
 			}
 			out.Count("real_error", m)
 		}
-		if in.X != nil {
+		if in.Script != nil {
+			out.Count("script", fmt.Sprintf("enclosed=%v depth=%d", in.Script.Encl, depthOf(in.Script.Steps)))
+		} else if in.X != nil {
 			out.Count("doc_operation", in.X.K)
 		} else {
 			out.Count("c01_finisher", in.C01.Fin.K)
@@ -762,6 +1016,18 @@ func main() {
 		in.Log = lib.Pick(r, []string{"", "", "", "parameterized", "custom"})
 		in.FailBegin = !in.Skip && in.Mode != "tosql" && r.Chance(1, 12)
 		kind := "main"
+		if r.Chance(1, 8) {
+			// a transaction script on the dry handle: Transaction blocks (nested: savepoints), explicit
+			// SavePoint / RollbackTo, operations in between
+			if in.Mode == "tosql" {
+				in.Mode = lib.Pick(r, []string{"config", "session"}) // Begin is a driver call of the caller's own
+			}
+			in.Prep, in.FailBegin = false, false
+			sc := genScript(r)
+			in.Script = &sc
+			add("edge", in)
+			continue
+		}
 		if r.Chance(2, 5) {
 			n++
 			k := xops[n%len(xops)]
